@@ -3,6 +3,7 @@
 package gen
 
 import (
+	"strconv"
 	"math"
 	"os"
 	"strings"
@@ -121,11 +122,45 @@ var f64Specials = []uint64{
 
 var f64Values = []float64{1e20, 1e21, 1e22, 1e-4, 1e-5, 1e-6, 1e-7, 123456, 1234567, 0.1, 0.3, 5e-324, 1.7976931348623157e308, 100000, 1e6, 4.35, 2.5e-5, 9007199254740993, 3.14, -3.14, 7e9}
 
+// decimalFloat draws a float from its decimal spelling: sign, 1..17 significant
+// digits (1 digit = the "round" numbers 1e6, -2e21, 5e-324, ...), decimal
+// exponent over the whole float64 range with a bias to the exponents at which
+// the shortest formatting switches between plain and scientific notation.
+func decimalFloat(t *rapid.T, label string) float64 {
+	nd := rapid.SampledFrom([]int{1, 1, 1, 2, 3, 7, 16, 17}).Draw(t, label+"_nd")
+	digits := make([]byte, nd)
+	for i := range digits {
+		lo := 0
+		if i == 0 || i == nd-1 {
+			lo = 1 // no leading/trailing zero: exactly nd significant digits
+		}
+		digits[i] = byte('0' + rapid.IntRange(lo, 9).Draw(t, label+"_d"))
+	}
+	var exp int
+	if rapid.Bool().Draw(t, label+"_eb") {
+		exp = rapid.SampledFrom([]int{-324, -323, -308, -307, -8, -7, -6, -5, -4, -3, -1, 0, 1, 5, 6, 7, 15, 16, 19, 20, 21, 22, 38, 39, 307, 308}).Draw(t, label+"_ex")
+	} else {
+		exp = rapid.IntRange(-330, 310).Draw(t, label+"_e")
+	}
+	sign := ""
+	if rapid.Bool().Draw(t, label+"_neg") {
+		sign = "-"
+	}
+	txt := sign + string(digits[:1]) + "." + string(digits[1:]) + "0e" + strconv.Itoa(exp)
+	f, err := strconv.ParseFloat(txt, 64)
+	if err != nil {
+		// out of range: ParseFloat returns ±Inf with ErrRange; callers that want
+		// finite values clear the exponent's top bit
+		return f
+	}
+	return f
+}
+
 // Float64Bits draws float64 bit patterns incl. NaN payloads, ±Inf, ±0, subnormals.
 func Float64Bits(t *rapid.T, finiteOnly bool, label string) uint64 {
 	for {
 		var b uint64
-		w := rapid.IntRange(0, 9).Draw(t, label+"_w")
+		w := rapid.IntRange(0, 11).Draw(t, label+"_w")
 		switch {
 		case w < 2:
 			b = math.Float64bits(float64(Int64In(t, math.MinInt64, math.MaxInt64, label+"_i")))
@@ -133,8 +168,13 @@ func Float64Bits(t *rapid.T, finiteOnly bool, label string) uint64 {
 			b = rapid.SampledFrom(f64Specials).Draw(t, label+"_s")
 		case w < 6:
 			b = math.Float64bits(rapid.SampledFrom(f64Values).Draw(t, label+"_v"))
+			if rapid.IntRange(0, 2).Draw(t, label+"_vs") == 0 {
+				b ^= 1 << 63
+			}
 		case w < 8:
 			b = math.Float64bits(rapid.Float64().Draw(t, label+"_f"))
+		case w < 10:
+			b = math.Float64bits(decimalFloat(t, label+"_dec"))
 		default:
 			b = rapid.Uint64().Draw(t, label+"_r")
 		}
@@ -155,7 +195,7 @@ var f32Specials = []uint32{
 // Float32Bits draws float32 bit patterns.
 func Float32Bits(t *rapid.T, finiteOnly bool, label string) uint32 {
 	var b uint32
-	w := rapid.IntRange(0, 9).Draw(t, label+"_w")
+	w := rapid.IntRange(0, 11).Draw(t, label+"_w")
 	switch {
 	case w < 2:
 		b = math.Float32bits(float32(rapid.Int32().Draw(t, label+"_i")))
@@ -163,8 +203,15 @@ func Float32Bits(t *rapid.T, finiteOnly bool, label string) uint32 {
 		b = rapid.SampledFrom(f32Specials).Draw(t, label+"_s")
 	case w < 6:
 		b = math.Float32bits(float32(rapid.SampledFrom(f64Values).Draw(t, label+"_v")))
+		if rapid.IntRange(0, 2).Draw(t, label+"_vs") == 0 {
+			b ^= 1 << 31
+		}
 	case w < 8:
 		b = math.Float32bits(rapid.Float32().Draw(t, label+"_f"))
+	case w < 10:
+		// nearest float32 of a decimal-shaped number: prints with few digits as
+		// a float32 (the encoders format float32 with 32-bit precision)
+		b = math.Float32bits(float32(decimalFloat(t, label+"_dec")))
 	default:
 		b = rapid.Uint32().Draw(t, label+"_r")
 	}
